@@ -86,7 +86,7 @@ CHECKS.update({
         text="PARTIAL by proof, completed by search. Theorems (ordered field, Props/C01.lean): projgr_zero_iff_kkt (the stop-test quantity vanishes "
              "exactly at the first-order points), d0_zero_iff_kkt and nonstationary_moves (the generalized-Cauchy start direction of the model of "
              "cauchy.py is non-zero at every non-stationary point: variables resting on a bound with the gradient outward do not block the others), "
-             "moving_breakpoint_pos, d0_descent_term; nonstationary_cauchy_decrease and nonstationary_descent (Props/C01Descent: at a non-stationary iterate the model value at the generalized Cauchy point is strictly negative and, after the truncated Newton step on the free variables, the search direction satisfies g.d < 0 — the chain C01 -> C08 gcp_model_neg -> C09 direction_descent, exact arithmetic); with C04 report_truthful and C05 result_coherent the PGTOL message is truthful. That the "
+             "moving_breakpoint_pos, d0_descent_term; nonstationary_cauchy_decrease and nonstationary_descent (Props/C01Descent: at a non-stationary iterate the model value at the generalized Cauchy point is strictly negative and, after the truncated Newton step on the free variables, the search direction satisfies g.d < 0 — the chain C01 -> C08 gcp_model_neg -> C09 direction_descent, exact arithmetic; model_iteration_descent states it for the two executable models chained as the driver chains the routines); with C04 report_truthful and C05 result_coherent the PGTOL message is truthful. That the "
              "iteration reaches such a point on every generated convex problem (global convergence through SciPy's line search in floating point) is "
              "not a theorem: it is decided on real runs (600 quick / 8000 thorough convex problems incl. starts constructed on bounds with the gradient "
              "inward/outward), each replayed bit for bit through the Lean driver model, projected gradient recomputed from the harness's closures.",
@@ -118,7 +118,7 @@ CHECKS.update({
              "W^T(x_cp - x); gcp_model_le / gcp_model_lt / gcp_model_neg (model value never above the one at x, strictly below when some variable can "
              "move) — by one invariant of the breakpoint loop: f', f'' ARE the derivatives of the model on the current segment (bilinear algebra through a "
              "list <-> Fin n bridge to Mathlib), the path is straight up to the next breakpoint, phi decreased strictly so far. Hypotheses (MinCtx, "
-             "witnessed by a concrete instance; minCtx_nopairs discharges them for an empty memory and theta > 0): feasible x, exact product with a "
+             "witnessed by a concrete instance; minCtx_nopairs discharges them for an empty memory and theta > 0, middle_symm gives the symmetry of M from that of the matrix it inverts; the share of explored inputs on which the hypotheses hold is reported in the evidence): feasible x, exact product with a "
              "symmetric middle matrix, B positive definite, the Fortran floor on f'' inactive. The Float "
              "model is compared with cauchy.py on a structural enumeration of activity patterns (n <= 4: 36 per-coordinate combos) and random inputs, "
              "and both with a brute-force oracle (dense model, segment by segment, decision margin).",
@@ -127,7 +127,7 @@ CHECKS.update({
     "C09": dict(
         text="Theorems over Model/Subspace.lean: none_free, xbar_in_box and active_fixed (any arithmetic), alpha_star_feasible (ordered field: every step "
              "in [0, alpha*] keeps the point in the box, alpha* <= 1), smw_direction (Mathlib matrices, any field: the direction computed through the small "
-             "2m x 2m system solves the reduced Newton system (theta I - W M W^T) d = -r, under M M^-1 = 1); Props/C09Model (ordered field): subspace_no_increase (a Newton step on the free variables truncated by 0 <= alpha <= 1 does not increase the model), descent_of_decrease, direction_descent, and code_direction_descent: for the direction the code computes (small system, selection matrix of the free set: newton_of_reduced, reduced_bmat) the search direction after a Cauchy step with strict model decrease satisfies g.d < 0. Numerical equality with the dense Newton solve, "
+             "2m x 2m system solves the reduced Newton system (theta I - W M W^T) d = -r, under M M^-1 = 1); Props/C09Model (ordered field): subspace_no_increase (a Newton step on the free variables truncated by 0 <= alpha <= 1 does not increase the model), descent_of_decrease, direction_descent, and code_direction_descent: for the direction the code computes (small system, selection matrix of the free set: newton_of_reduced, reduced_bmat) the search direction after a Cauchy step with strict model decrease satisfies g.d < 0; masked_smw (the full-dimension masked form the source computes) and, about the executable model subspaceMin itself (Props/C09Run, via a list <-> Fin n bridge): subspace_newton_point (x_bar = x_cp + alpha u exactly, 0 <= alpha <= 1, in the box, u zero on the variables on a bound and Newton on the free ones), subspace_model_no_increase, subspace_direction_descent — under SubCtx (exact middle-matrix product and small solve, c = W^T(x_cp - x) as C08 proves), witnessed by a concrete instance. Numerical equality with the dense Newton solve, "
              "model decrease and descent are decided by the differential (Lean Float model vs subspacemin.py vs dense solve) over every free/active partition "
              "for n <= 4 and random inputs, and in situ: every subspace step recorded inside real runs (memory objects reused across iterations, histories "
              "rewritten by update functions, rejected pairs) against the dense truncated Newton point of the model defined by the stored pairs.",
@@ -137,7 +137,7 @@ CHECKS.update({
         text="Theorems: bookkeeping for arbitrary candidate sequences, any arithmetic (reject_is_noop, accept_appends_and_drops_oldest, mem_le_maxcor(_seq), "
              "newest_pair_curv); algebra over any ordered field (bfgs_symm, bfgs_secant, bfgs_posdef, bfgs_chain_posdef, scaled_identity_spd); compact_eq_bfgs / compact_eq_bfgs_of_curvature (Byrd-Nocedal-Schnabel, Props/C10Compact): for ANY list of "
              "pairs with positive curvature, theta I - W N^-1 W^T with the explicitly constructed inverse of the middle matrix IS the dense BFGS recursion from "
-             "theta I (induction on the pairs over a recursively extended index type), compact_secant. The floating-point computation (triangular factors in "
+             "theta I (induction on the pairs over a recursively extended index type), compact_secant; invM_factorisation / bmv_is_product (Props/C10Factor: the product of the two triangular factors the code builds from sqrt(D), 1/sqrt(D), L and the Cholesky factor J IS [[-D, L^T],[L, theta S^T S]], so two exact triangular solves return M v). The floating-point computation (triangular factors in "
              "the code) is decided by correspondence: bfgsmats.py vs the "
              "Lean Float compact model vs an independent dense recursion on random histories with rejected pairs, full memory, maxcor 1..12, and forced "
              "rebuilds after the stored gradients were rewritten (the update_fun_def path of main.py), also with a rejected candidate.",
@@ -195,7 +195,7 @@ CHECKS.update({
     "C18": dict(
         text="Theorems: pairs_are_diffs, pairs_le_maxcor, pairs_curvature (fresh runs without redefinition: result and every callback state carry consecutive "
              "differences of a bounded history of coherent (point, user's gradient there x scale) values whose consecutive members passed the curvature test — "
-             "a memory invariant proved through the whole driver by induction), with redefinitions C13 redefinition_pairs_curvature, restart without iteration C06 restart_noiter_same_pairs; curv_pos, inv_bfgs_posdef / inv_bfgs_chain_posdef (the inverse-BFGS operator of "
+             "a memory invariant proved through the whole driver by induction), with redefinitions C13 redefinition_pairs_curvature, restart without iteration C06 restart_noiter_same_pairs; two_loop_eq_chain / two_loop_spd (Props/C18TwoLoop: SciPy's two-loop recursion in LbfgsInvHessProduct._matvec returns the product with the dense matrix of the pair-by-pair inverse BFGS recursion, hence an SPD operator); curv_pos, inv_bfgs_posdef / inv_bfgs_chain_posdef (the inverse-BFGS operator of "
              "any positive-curvature pair list is SPD), diag_by_unit_vectors. sk/yk of every state are part of the bit-exact replay; on real runs they are "
              "searched for as exact differences of a chronological chain in the harness's visit log (restart chains, redefinitions, FD modes); the diagonal "
              "utility against todense() and an exact rational recursion. Known findings K2, K4, K1 reported as KNOWN-FINDING.",
